@@ -264,29 +264,44 @@ theorem hexAddCell_accept (k : Kernel) (hfs : List Nat) (chk : Bool) (c : Nat)
         have := hval
         simp only [List.any_eq_true, not_exists, not_and, Bool.not_eq_true] at this
         simpa using this hf hm
-      simp only [hl6, hval, if_false, Bool.false_eq_true]
       split at h
-      · rename_i hc
-        simp only [hc, if_true]
-        obtain ⟨a, b, d⟩ := key _ _ h
-        have hcf : chk = false := by simpa using hc
-        exact ⟨a, b, hfs, d, hl, hv, Or.inl ⟨hcf, rfl⟩⟩
-      · rename_i hc
-        have hct : chk = true := by simpa using hc
-        simp only [hc, if_false, Bool.false_eq_true]
+      · simp at h
+      · rename_i hspan
+        simp only [hl6, hval, hspan, if_false, Bool.false_eq_true]
         split at h
-        · rename_i hco
-          simp only [hco, if_true]
+        · rename_i hc
+          simp only [hc, if_true]
           obtain ⟨a, b, d⟩ := key _ _ h
-          exact ⟨a, b, hfs, d, hl, hv, Or.inr (Or.inl ⟨hct, rfl, by first | rfl | trivial | exact hco⟩)⟩
-        · rename_i hco
-          simp only [hco, if_false, Bool.false_eq_true]
+          have hcf : chk = false := by simpa using hc
+          exact ⟨a, b, hfs, d, hl, hv, Or.inl ⟨hcf, rfl⟩⟩
+        · rename_i hc
+          have hct : chk = true := by simpa using hc
+          simp only [hc, if_false, Bool.false_eq_true]
           split at h
-          · simp at h
-          · rename_i ord hre
-            simp only [hre]
+          · rename_i hco
+            simp only [hco, if_true]
             obtain ⟨a, b, d⟩ := key _ _ h
-            exact ⟨a, b, ord, d, hexReorder_length k hfs ord hre, hv, Or.inr (Or.inr ⟨hct, by first | (simp at hco; simp [hco]; done) | simp | trivial, by first | rfl | exact hre⟩)⟩
+            exact ⟨a, b, hfs, d, hl, hv, Or.inr (Or.inl ⟨hct, rfl, by first | rfl | trivial | exact hco⟩)⟩
+          · rename_i hco
+            simp only [hco, if_false, Bool.false_eq_true]
+            split at h
+            · simp at h
+            · rename_i ord hre
+              simp only [hre]
+              obtain ⟨a, b, d⟩ := key _ _ h
+              exact ⟨a, b, ord, d, hexReorder_length k hfs ord hre, hv, Or.inr (Or.inr ⟨hct, by first | (simp at hco; simp [hco]; done) | simp | trivial, by first | rfl | exact hre⟩)⟩
+
+/-- 7b999c9: an accepted call was given six quads that span exactly eight distinct vertices -/
+theorem hexAddCell_accept_span (k : Kernel) (hfs : List Nat) (chk : Bool) (c : Nat)
+    (h : (k.hexAddCell hfs chk).2 = some c) : k.spanVertCount hfs = 8 := by
+  unfold hexAddCell at h
+  split at h
+  · simp at h
+  · split at h
+    · simp at h
+    · split at h
+      · simp at h
+      · rename_i hspan; simpa using hspan
 
 theorem hexAddCell_len (k : Kernel) (hfs : List Nat) (chk : Bool) (h : HexLen k) : HexLen (k.hexAddCell hfs chk).1 := by
   cases hr : (k.hexAddCell hfs chk).2 with
